@@ -171,6 +171,8 @@ package utils
 //@ spec msOfEpoch(v uint64) uint64 = ite(v >= 1000000000000000000, v / 1000000, ite(v >= 99999999999, v, v * 1000))
 //@ ghostdecl tsraw uint64
 //@ ghostdecl tsnum int
+//@ ghostdecl etsraw uint64
+//@ ghostdecl etsnum int
 
 //@ func IsTimeInMilli
 //@   props C16
@@ -190,7 +192,9 @@ package utils
 // the result through a ghost cell written where the code first uses it.
 //@ func ConvertTimestampToMillis
 //@   props C16
+//@   mode int
 //@   requires ghost(0, "tsnum") == 0
+//@   modifies ghost(0, "tsnum"), ghost(0, "tsraw")
 //@   site call IsTimeInNano #1:
 //@     ghostset ghost(0, "tsraw") = parsed_value
 //@     ghostset ghost(0, "tsnum") = 1
@@ -200,13 +204,14 @@ package utils
 // Number path of the JSON extractor: must agree with the string path.
 //@ func ExtractTimeStamp
 //@   props C16
-//@   requires timestampKey != nil && ghost(0, "tsnum") == 0
+//@   mode int
+//@   requires timestampKey != nil && ghost(0, "etsnum") == 0 && ghost(0, "tsnum") == 0
 //@   site call IsTimeInNano #1:
-//@     ghostset ghost(0, "tsraw") = ts_millis
-//@     ghostset ghost(0, "tsnum") = 1
-//@   ensures [number-path-equals-string-path] implies(ghost(0, "tsnum") == 1, result == msOfEpoch(ghost(0, "tsraw")))
+//@     ghostset ghost(0, "etsraw") = ts_millis
+//@     ghostset ghost(0, "etsnum") = 1
+//@   ensures [number-path-equals-string-path] implies(ghost(0, "etsnum") == 1, result == msOfEpoch(ghost(0, "etsraw")))
 // an integer JSON number keeps its exact value (it must not be routed through float64)
-//@   ensures [integer-number-exact] implies(ghost(0, "tsnum") == 1 && uf("isIntText", bool, rawVal) && uf("intOf", int64, rawVal) >= 0, result == msOfEpoch(uint64(uf("intOf", int64, rawVal))))
+//@   ensures [integer-number-exact] implies(ghost(0, "etsnum") == 1 && uf("isIntText", bool, rawVal) && uf("intOf", int64, rawVal) >= 0, result == msOfEpoch(uint64(uf("intOf", int64, rawVal))))
 //@ end
 
 //@ func normalizeIntToSeconds
